@@ -1144,9 +1144,9 @@ func defsThrough(w *World, root, cf *FuncInfo, obj types.Object) ([]ast.Expr, []
 // ---------- conditions and values through helpers that return (values…, ok) ----------
 
 var (
-	theWorld   *World                                   // set by the loader: lets syntax-only helpers resolve callees
+	theWorld   *World                                     // set by the loader: lets syntax-only helpers resolve callees
 	varAliases = map[types.Object]map[types.Object]bool{} // variables holding the same value across a helper boundary
-	paramArgs  = map[types.Object]ast.Expr{}             // helper parameter -> the (non-identifier) argument a caller passes
+	paramArgs  = map[types.Object]ast.Expr{}              // helper parameter -> the (non-identifier) argument a caller passes
 )
 
 func linkVars(a, b types.Object) {
